@@ -119,6 +119,7 @@ fn main() {
             let seed: i64 = std::env::var("VERIF_SEED").ok().and_then(|s| s.parse().ok()).unwrap_or(0);
             let n: usize = std::env::var("XV_WORKERS").ok().and_then(|s| s.parse().ok()).unwrap_or_else(|| std::thread::available_parallelism().map(|n| n.get()).unwrap_or(8).min(32));
             let budget: Option<u64> = std::env::var("XV_BUDGET_S").ok().and_then(|s| s.parse().ok());
+            props::sets::ATOMIC_AVAILABLE.store(!bins.xcp_o1.is_empty() && !bins.o1_breakpoints.is_empty(), std::sync::atomic::Ordering::Relaxed);
             let ctx = Ctx { prop: prop.clone(), tier, pool: props::mk_pool(&bins, n, budget), t0: std::time::Instant::now(), seed, verif_dir: verif_dir(), repo_dir: std::env::var("XV_REPO").unwrap_or_else(|_| "/repo".into()) };
             if let Err(e) = selftest(&bins, false).and_then(|_| transparency(&bins)) {
                 eprintln!("ENGINE UNAVAILABLE: {}", e);
